@@ -2,13 +2,18 @@
 from __future__ import annotations
 
 import ast
+from typing import Any
 
-from sa.model import AnalysisError, Model
+from sa.codec import SERVICE, ClassAnalysis, CodecAnalyser, PathResult, Registry, field_origin
+from sa.layout import IntV, Lin, ObjV, State, int_const, trim_bits
+from sa.model import AnalysisError, ClassInfo, FuncInfo, Model, walk_no_nested
+from sa.oracles import iso14229
 from sa.report import Report
 
 TITLE = "Genuine replies are always accepted, foreign or stale replies always refused"
 EXC = "gallia.services.uds.core.exception"
 CONST = "gallia.services.uds.core.constants"
+HELPERS = "gallia.services.uds.helpers"
 
 
 def rule_r7(m: Model, r: Report) -> None:
@@ -18,7 +23,9 @@ def rule_r7(m: Model, r: Report) -> None:
     codes = m.enum_members(m.require_class(f"{CONST}.UDSErrorCodes"))
     if not codes:
         raise AnalysisError("UDSErrorCodes has no members")
-    m.require_function(f"{EXC}.UnexpectedNegativeResponse.parse_dynamic")
+    pd = m.require_function(f"{EXC}.UnexpectedNegativeResponse.parse_dynamic")
+    if "_CONCRETE_EXCEPTIONS[response.response_code]" not in ast.unparse(pd.node):
+        raise AnalysisError(f"{pd.qualname}: lookup by response.response_code not found")
     registered: dict[int, list[str]] = {}
     for c in m.subclasses(base, strict=True):
         if "response_code" not in c.keywords:
@@ -33,5 +40,380 @@ def rule_r7(m: Model, r: Report) -> None:
                 loc=base.loc, fact_ok=f"{name} -> {registered.get(val)}")
 
 
+# ------------------------------------------------------------------------------------------------ matcher facts
+
+
+class Matcher:
+    """Facts extracted from a response class's resolved matches() (following super().matches())."""
+
+    def __init__(self, m: Model, cls: ClassInfo) -> None:
+        self.m = m
+        self.cls = cls
+        self.isinstance_targets: list[ClassInfo] = []
+        self.atoms: list[tuple[ast.expr, ast.expr, FuncInfo]] = []   # (request-side expr, self-side expr)
+        self.service_id_compared = False
+        self.other: list[str] = []
+        self.funcs: list[FuncInfo] = []
+        f = m.resolve_method(cls, "matches")
+        while f is not None and not f.is_abstract:
+            self.funcs.append(f)
+            self._scan(f)
+            calls_super = any(isinstance(n, ast.Call) and isinstance(n.func, ast.Attribute) and n.func.attr == "matches"
+                              and isinstance(n.func.value, ast.Call) and ast.unparse(n.func.value.func) == "super"
+                              for n in walk_no_nested(f.node))
+            f = m.resolve_method(cls, "matches", after=f.cls) if calls_super else None
+
+    def _scan(self, f: FuncInfo) -> None:
+        m = self.m
+        for n in walk_no_nested(f.node):
+            if isinstance(n, ast.Call) and isinstance(n.func, ast.Name) and n.func.id == "isinstance" and len(n.args) == 2 \
+                    and isinstance(n.args[0], ast.Name) and n.args[0].id == "request":
+                t = m.resolve_expr(f.module, n.args[1], f.cls)
+                if not isinstance(t, ClassInfo):
+                    raise AnalysisError(f"{f.qualname}: isinstance target {ast.unparse(n.args[1])} does not resolve")
+                self.isinstance_targets.append(t)
+            if isinstance(n, ast.Compare) and len(n.ops) == 1 and isinstance(n.ops[0], (ast.Eq, ast.NotEq)):
+                a, b = n.left, n.comparators[0]
+                ra, rb = _root(a), _root(b)
+                if {ra, rb} == {"request", "self"}:
+                    req_e, self_e = (a, b) if ra == "request" else (b, a)
+                    if ast.unparse(req_e) in ("request.SERVICE_ID", "request.service_id") and \
+                            ast.unparse(self_e) in ("self.SERVICE_ID", "self.service_id"):
+                        self.service_id_compared = True
+                    else:
+                        self.atoms.append((req_e, self_e, f))
+                elif "request" in (ra, rb) or "self" in (ra, rb):
+                    self.other.append(ast.unparse(n))
+
+
+def _root(e: ast.expr) -> str | None:
+    while isinstance(e, (ast.Attribute, ast.Subscript, ast.Call)):
+        e = e.value if not isinstance(e, ast.Call) else e.func
+    return e.id if isinstance(e, ast.Name) else None
+
+
+def eval_side(ca: CodecAnalyser, p: PathResult, expr: ast.expr, var: str, fn: FuncInfo) -> str | None:
+    """Wire origin of an attribute expression rooted at `var` on one accepted path."""
+    st: State = p.state.clone()
+    env = {var: ObjV(p.obj_cls, {}, p.oid), "__fn__": fn, "__depth__": 0}
+    try:
+        v = ca.interp.eval1(st, env, expr)
+    except Exception as e:  # noqa: BLE001
+        return None
+    return effective_origin(st, v)
+
+
+def effective_origin(st: State, v: Any) -> str:
+    """Origin with bits that the path's checks pin to a constant replaced by that constant."""
+    if isinstance(v, IntV) and v.kind == "bits":
+        bits = []
+        for b in v.bits:
+            if isinstance(b, tuple):
+                pin = st.pinned(b)
+                bits.append(pin if pin is not None else b)
+            else:
+                bits.append(b)
+        v = IntV("bits", bits=tuple(bits))
+    return field_origin(v)
+
+
 def run(m: Model, r: Report, tier: str) -> None:
     rule_r7(m, r)
+    reg = Registry(m)
+    ca = CodecAnalyser(m)
+    r.rule("R1", "every isinstance(request, T) in a response's matches() names a request class T with "
+                 "issubclass(registered request of that response, T)", floor=35)
+    r.rule("R2", "every echo comparison request.X == self.Y compares fields that sit on the same wire bytes", floor=20)
+    r.rule("R3", "the primary identifier the service echoes (sub-function, DID, RID, block counter, memory triple) is compared", floor=30)
+    r.rule("R4", "negative responses are matched on wire byte 1 (the request service id), everywhere", floor=3)
+    r.rule("R5", "the raw-response heuristic compares exactly the echo_length bytes after the service id", floor=2)
+    r.rule("R6", "parse_pdu decision structure: mismatch before malformed; raw-request fallback and matches() test the same parsed request; "
+                 "trigger_request only set on acceptance", floor=4)
+    r.rule("R9", "a reply of another registered service (or another sub-function of the service) cannot satisfy matches()", floor=35)
+    r.rule("R10", "the response parser admits every ISO-minimal genuine reply (length envelope, no index beyond the checked length)", floor=34)
+
+    UDSRequest = reg.UDSRequest
+    pairs = [p for p in reg.pairs if p.request is not None and p.response is not None and p.service_id is not None]
+    all_requests = [(p.request, p.service_id, p.sub_function_id) for p in pairs]
+    matchers: dict[str, Matcher] = {}
+    for p in pairs:
+        resp, req = p.response, p.request
+        construct = f"{resp.qualname}~{req.name}"
+        r.note("request/response pairs", construct)
+        mt = matchers.setdefault(resp.qualname, Matcher(m, resp))
+        if not mt.funcs:
+            r.violation("R1", construct, "response class has no concrete matches()", resp.loc)
+            continue
+        # R1
+        bad = [t.name for t in mt.isinstance_targets if not m.is_subclass(req, t) or not m.is_subclass(t, UDSRequest)]
+        r.check(bool(mt.isinstance_targets) and not bad, "R1", construct,
+                f"matches() requires isinstance(request, {bad or 'nothing'}) but the request class registered for this "
+                f"response is {req.name}: the genuine reply is refused as a mismatch" if bad else
+                "matches() has no isinstance test on the request", loc=mt.funcs[0].loc,
+                fact_ok=f"isinstance targets {[t.name for t in mt.isinstance_targets]} ⊇ {req.name}")
+        # R2
+        ra, pa = ca.analyse(req), ca.analyse(resp)
+        compared: set[str] = set()
+        for req_e, self_e, fn in mt.atoms:
+            ro = {eval_side(ca, pth, req_e, "request", fn) for pth in ra.accepted}
+            so = {eval_side(ca, pth, self_e, "self", fn) for pth in pa.accepted}
+            ro.discard(None)
+            so.discard(None)
+            atom = f"{ast.unparse(req_e)} == {ast.unparse(self_e)}"
+            if not ro or not so:
+                r.violation("R2", f"{construct}#{atom}", f"cannot evaluate the wire origin of {atom} (request: {ro}, response: {so})", fn.loc)
+                continue
+            # len(...) comparisons (ReadMemoryByAddress) are value relations, not echoes
+            if any(o.startswith("int(") or o.startswith("opaque") for o in ro | so):
+                r.extra.setdefault("non_echo_atoms", []).append(f"{construct}: {atom}")
+                continue
+            ok = bool(ro & so)
+            r.check(ok, "R2", f"{construct}#{atom}",
+                    f"{ast.unparse(req_e)} sits at {sorted(ro)} in the request but {ast.unparse(self_e)} at {sorted(so)} in the response: "
+                    "the matcher compares different wire bytes", loc=fn.loc, fact_ok=f"both at {sorted(ro & so)}")
+            if ok:
+                compared |= (ro & so)
+        # R3
+        need = iso14229.ECHO.get(p.service_id)
+        if need is None:
+            raise AnalysisError(f"no echo oracle for service {p.service_id:#x}")
+        missing = []
+        sf_const = field_origin(int_const(p.sub_function_id)) if p.sub_function_id is not None else "<none>"
+        for d in need:
+            if d == "sf":
+                hit = any(o.startswith("bits<pdu[1].") for o in compared) or sf_const in compared
+                # a specialised class pair fixes the sub-function by class identity
+                if not hit and p.sub_function_id is not None and any(t == req or _single_subfunction(m, reg, t) for t in mt.isinstance_targets):
+                    hit = True
+            elif d.startswith("I2@"):
+                k = int(d[3:])
+                hit = f"from_bytes(pdu[{k}:{k + 2}])" in compared
+            elif d.startswith("B@"):
+                hit = any(o.startswith(f"bits<pdu[{d[2:]}].7") for o in compared)
+            elif d == "Isym@2":
+                hit = any(o.startswith("from_bytes(pdu[2:") for o in compared)
+            elif d == "Isym@2+":
+                hit = sum(1 for o in compared if o.startswith("from_bytes(pdu[")) >= 2
+            else:
+                raise AnalysisError(f"echo descriptor {d}")
+            if not hit:
+                missing.append(d)
+        r.check(not missing, "R3", construct,
+                f"matches() does not compare the echoed {missing} of service {p.service_id:#x} (compared: {sorted(compared)}): "
+                "a stale reply of the same service with another identifier is accepted", loc=mt.funcs[0].loc,
+                fact_ok=f"compared {sorted(compared)} covers {need}")
+        # R9
+        leaks = []
+        for oreq, osid, osf in all_requests:
+            if oreq == req:
+                continue
+            if not all(m.is_subclass(oreq, t) for t in mt.isinstance_targets) or not mt.isinstance_targets:
+                continue
+            if osid != p.service_id:
+                if not mt.service_id_compared:
+                    leaks.append(f"{oreq.name} (service {osid:#x})")
+            elif osf != p.sub_function_id:
+                if not any(o.startswith("bits<pdu[1].") for o in compared) and sf_const not in compared:
+                    leaks.append(f"{oreq.name} (sub-function {osf})")
+        r.check(not leaks, "R9", construct,
+                f"matches() also accepts requests {leaks[:4]}: its isinstance test admits them and nothing compares "
+                "the service / sub-function", loc=mt.funcs[0].loc)
+        # R10
+        key = (p.service_id, p.sub_function_id)
+        if key not in iso14229.RESP:
+            key = (p.service_id, None)
+        shapes, iso_min, iso_max = iso14229.RESP[key]
+        mn = m.class_kw(resp, "minimal_length")
+        mx = m.class_kw(resp, "maximal_length")
+        problems = []
+        if not (isinstance(mn, int) and mn <= iso_min):
+            problems.append(f"minimal_length {mn} > ISO minimum {iso_min}")
+        if mx is not None and (iso_max is None or mx < iso_max):
+            problems.append(f"maximal_length {mx} < ISO maximum {iso_max}")
+        for pth in pa.accepted:
+            for g in pth.guards:
+                if g[0] == "index" and g[1] >= pth.len_lo and g[1] >= iso_min:
+                    problems.append(f"pdu[{g[1]}] is read ({g[2]}) although lengths from {pth.len_lo} are accepted: "
+                                    f"an ISO-minimal reply of {iso_min} bytes raises IndexError and is reported as malformed")
+        r.check(not problems, "R10", resp.qualname, "; ".join(sorted(set(problems))), loc=resp.loc)
+
+    # R1 for the pairs only named by response_type= (convenience classes the client constructs directly)
+    have = {(p.request.qualname, p.response.qualname) for p in pairs}
+    for req in reg.concrete(UDSRequest):
+        if "response_type" not in req.keywords:
+            continue
+        rt = m.class_kw(req, "response_type")
+        if not isinstance(rt, ClassInfo) or (req.qualname, rt.qualname) in have or m.class_kw(req, "service_id", None) is None:
+            continue
+        mt = matchers.setdefault(rt.qualname, Matcher(m, rt))
+        if not mt.funcs:
+            continue
+        construct = f"{rt.qualname}~{req.name}"
+        r.note("request/response pairs", construct)
+        bad = [t.name for t in mt.isinstance_targets if not m.is_subclass(req, t) or not m.is_subclass(t, UDSRequest)]
+        r.check(bool(mt.isinstance_targets) and not bad, "R1", construct,
+                f"matches() requires isinstance(request, {bad}) but {req.name} declares response_type={rt.name}: "
+                "the genuine reply is refused as a mismatch", loc=mt.funcs[0].loc)
+
+    # ---------------------------------------------------------------- R4
+    neg = m.require_class(f"{SERVICE}.NegativeResponse")
+    na = ca.analyse(neg)
+    f = m.require_function(f"{SERVICE}.NegativeResponse.matches")
+    origins = set()
+    for n in walk_no_nested(f.node):
+        if isinstance(n, ast.Compare) and len(n.ops) == 1 and isinstance(n.ops[0], (ast.Eq, ast.NotEq)):
+            sides = [n.left, n.comparators[0]]
+            if any(ast.unparse(s) == "request.service_id" for s in sides):
+                other = next(s for s in sides if ast.unparse(s) != "request.service_id")
+                for pth in na.accepted:
+                    origins.add(eval_side(ca, pth, other, "self", f))
+    r.check(origins == {"bits<pdu[1].7..0@7>"}, "R4", f.qualname,
+            f"NegativeResponse.matches compares request.service_id with wire origin {origins}, expected byte 1", loc=f.loc)
+    for qual in (f"{SERVICE}.RawNegativeResponse.matches", f"{HELPERS}.parse_pdu"):
+        fn = m.require_function(qual)
+        idx = []
+        for n in walk_no_nested(fn.node):
+            if isinstance(n, ast.Compare) and len(n.ops) == 1 and isinstance(n.ops[0], (ast.Eq, ast.NotEq)):
+                sides = [n.left, n.comparators[0]]
+                if any(ast.unparse(s) == "request.service_id" for s in sides):
+                    other = next(s for s in sides if ast.unparse(s) != "request.service_id")
+                    if isinstance(other, ast.Subscript) and ast.unparse(other.value) in ("pdu", "self.pdu"):
+                        idx.append(m.try_fold(fn.module, other.slice, default="?"))
+        if not idx:
+            raise AnalysisError(f"{qual}: comparison of a PDU byte with request.service_id not found")
+        r.check(all(i == 1 for i in idx), "R4", qual,
+                f"compares pdu[{idx}] with request.service_id; the request service id of a negative response is byte 1", loc=fn.loc)
+        # the index must be guarded by a length test that makes it valid
+        for n in walk_no_nested(fn.node):
+            if isinstance(n, ast.BoolOp) and isinstance(n.op, ast.And):
+                txt = [ast.unparse(v) for v in n.values]
+                for i, t in enumerate(txt):
+                    if "request.service_id" in t and "pdu[" in t:
+                        guards = [g for g in txt[:i] if g.startswith("len(")]
+                        okg = False
+                        for g in guards:
+                            cmp = ast.parse(g, mode="eval").body
+                            if isinstance(cmp, ast.Compare) and len(cmp.ops) == 1:
+                                c = m.try_fold(fn.module, cmp.comparators[0])
+                                if isinstance(c, int) and ((isinstance(cmp.ops[0], ast.GtE) and c >= 2) or (isinstance(cmp.ops[0], ast.Gt) and c >= 1)):
+                                    okg = True
+                        r.check(okg, "R4", qual + "#length-guard",
+                                f"pdu[1] is compared under guards {guards}: a 2-byte negative response naming another service is not "
+                                "recognised as foreign, or a 1-byte one raises IndexError", loc=fn.loc)
+
+    # ---------------------------------------------------------------- R5
+    f = m.require_function(f"{SERVICE}.RawPositiveResponse.matches")
+    slices = [n for n in walk_no_nested(f.node) if isinstance(n, ast.Subscript) and isinstance(n.slice, ast.Slice)
+              and ast.unparse(n.value) in ("request.pdu", "self.pdu")]
+    if len(slices) < 2:
+        raise AnalysisError(f"{f.qualname}: echo slices not found")
+    for s in slices:
+        lo = m.try_fold(f.module, s.slice.lower) if s.slice.lower is not None else 0
+        up = s.slice.upper
+        width_ok = False
+        if isinstance(lo, int) and up is not None:
+            # upper must be echo_length + lo
+            if isinstance(up, ast.BinOp) and isinstance(up.op, ast.Add):
+                parts = [up.left, up.right]
+                names = [x for x in parts if isinstance(x, ast.Name)]
+                consts = [m.try_fold(f.module, x) for x in parts if not isinstance(x, ast.Name)]
+                width_ok = len(names) == 1 and names[0].id == "echo_length" and consts == [lo]
+        r.check(lo == 1 and width_ok, "R5", f"{f.qualname}#{ast.unparse(s.value)}",
+                f"echo slice {ast.unparse(s)} does not cover bytes 1 .. echo_length: the last echoed byte is not compared "
+                "or the service id byte is included", loc=f.loc)
+    sid_cmp = any(isinstance(n, ast.Compare) and "self.service_id" in ast.unparse(n) and "request.service_id" in ast.unparse(n)
+                  for n in walk_no_nested(f.node))
+    r.check(sid_cmp, "R5", f"{f.qualname}#service-id", "raw positive responses are not matched on the service id", loc=f.loc)
+    # echo-length table: entries of services with typed classes must not exceed the bytes both layouts echo
+    tbl = m.lookup_in_module(m.module(CONST), "UDSIsoServicesEchoLength")
+    if not (isinstance(tbl, tuple) and isinstance(tbl[2], ast.Dict)):
+        raise AnalysisError("UDSIsoServicesEchoLength is not a dict literal")
+    echo_tbl = {m.fold(tbl[1], k): m.fold(tbl[1], v) for k, v in zip(tbl[2].keys, tbl[2].values)}
+    for sid, n in sorted(echo_tbl.items()):
+        typed = [p for p in pairs if p.service_id == sid]
+        if not typed:
+            continue
+        for p in typed:
+            # the first n bytes after the service id must be position-identical fields in request and response layouts
+            ra, pa = ca.analyse(p.request), ca.analyse(p.response)
+            def prefix(a: ClassAnalysis) -> set[tuple]:
+                out = set()
+                for pth in a.accepted:
+                    toks, width = [], 0
+                    for t in pth.shape[1:]:
+                        if width >= n:
+                            break
+                        w = {"K": 1, "B": 1, "I2": 2, "I3": 3}.get(t)
+                        if w is None:
+                            toks.append(t)
+                            width = 99 if t in ("R*", "{") else width + 1
+                            continue
+                        toks.append(t)
+                        width += w
+                    out.add((tuple(toks), width >= n or width == 99))
+                return out
+            pr_req, pr_resp = prefix(ra), prefix(pa)
+            long_enough = any(okk for _, okk in pr_resp) and any(okk for _, okk in pr_req)
+            r.check(long_enough, "R5", f"UDSIsoServicesEchoLength[{sid:#x}]~{p.response.name}",
+                    f"echo length {n} exceeds what request ({pr_req}) and response ({pr_resp}) layouts of this service carry", loc=f.loc)
+
+    # ---------------------------------------------------------------- R6
+    pp = m.require_function(f"{HELPERS}.parse_pdu")
+    body = pp.node.body
+    tries = [s for s in body if isinstance(s, ast.Try)]
+    if len(tries) != 1 or len(tries[0].handlers) != 1:
+        raise AnalysisError("parse_pdu: expected one try with one handler around UDSResponse.parse_dynamic")
+    h = tries[0].handlers[0]
+    flat = list(ast.walk(h))
+    raises = [n for n in flat if isinstance(n, ast.Raise) and n.exc is not None]
+    names = [ast.unparse(n.exc.func if isinstance(n.exc, ast.Call) else n.exc) for n in raises]
+    last_top = h.body[-1]
+    r.check(isinstance(last_top, ast.Raise) and "MalformedResponse" in ast.unparse(last_top) and
+            names.count("RequestResponseMismatch") >= 2 and
+            all(n.lineno < last_top.lineno for n in raises if "RequestResponseMismatch" in ast.unparse(n)),
+            "R6", f"{pp.qualname}#mismatch-before-malformed",
+            f"except-handler raises {names}; expected the mismatch tests of both branches before the final MalformedResponse", loc=pp.loc)
+    # parsed_request consistency
+    parsed_var = None
+    for s in body:
+        if isinstance(s, ast.Assign) and "parse_dynamic(request.pdu)" in ast.unparse(s.value) and isinstance(s.targets[0], ast.Name):
+            parsed_var = s.targets[0].id
+    if parsed_var is None:
+        raise AnalysisError("parse_pdu: dynamic parse of the request not found")
+    ifs = [s for s in body if isinstance(s, ast.If)]
+    okc = False
+    detail = ""
+    for s in ifs:
+        test = ast.unparse(s.test)
+        if "RawRequest" in test:
+            tested = [n.args[0].id for n in ast.walk(s.test) if isinstance(n, ast.Call) and ast.unparse(n.func) == "isinstance"
+                      and isinstance(n.args[0], ast.Name) and "RawRequest" in ast.unparse(n.args[1])]
+            matched = [n.args[0].id for n in ast.walk(s) if isinstance(n, ast.Call) and isinstance(n.func, ast.Attribute)
+                       and n.func.attr == "matches" and n.args and isinstance(n.args[0], ast.Name)]
+            detail = f"isinstance(RawRequest) tests {tested}, matches() is given {matched}"
+            okc = tested == [parsed_var] and matched == [parsed_var]
+            sid_fallback = any(isinstance(n, ast.Compare) and "response.service_id" in ast.unparse(n) and "request.service_id" in ast.unparse(n)
+                               for n in ast.walk(s))
+            r.check(sid_fallback, "R6", f"{pp.qualname}#raw-fallback-service-id",
+                    "the raw-request fallback does not compare response.service_id with request.service_id", loc=pp.loc)
+    r.check(okc, "R6", f"{pp.qualname}#same-parsed-request",
+            f"{detail}; both must use the dynamically parsed request {parsed_var}: otherwise typed replies to raw requests are only "
+            "compared by service id (stale identifiers accepted) or typed requests that re-parse as raw are refused", loc=pp.loc)
+    trig = [i for i, s in enumerate(body) if isinstance(s, ast.Assign) and "trigger_request" in ast.unparse(s.targets[0])]
+    last_if = max(i for i, s in enumerate(body) if isinstance(s, ast.If))
+    r.check(len(trig) == 1 and trig[0] > last_if and isinstance(body[-1], ast.Return), "R6", f"{pp.qualname}#trigger-request",
+            "response.trigger_request must be assigned exactly once, after all mismatch tests", loc=pp.loc)
+
+    r.assumptions += ["matches() bodies are conjunctions of isinstance tests and equality atoms (other atoms are listed in evidence)",
+                      "ISO echo table in sa/oracles/iso14229.py"]
+    r.not_decided += ["acceptance for all value combinations", "the DDDI response's echoed DDDID is not compared (advisory, ISO-optional)"]
+
+
+def _single_subfunction(m: Model, reg: Registry, t: ClassInfo) -> bool:
+    """t has exactly one registered sub-function among its registered subclasses."""
+    keys = {(p.service_id, p.sub_function_id) for p in reg.pairs if p.request is not None and m.is_subclass(p.request, t)}
+    return len(keys) == 1
+
+
+def _pins_subfunction(m: Model, t: ClassInfo) -> bool:
+    return False
